@@ -63,6 +63,8 @@ var c06Exprs = []string{
 	"/:z", "/a:b", "/a*c", "/ab:c/:x",
 	// escapes which request path normalisation would spell differently (never probed, only loaded, replaced and removed)
 	"/caf%c3%a9/:x", "/%7Eu",
+	// static segments of which one is a proper prefix of the other, below a wildcard (the tree splits and merges nodes inside a segment)
+	"/:x/bc", "/a/:x/bc", "/abc",
 	// further second spellings (other wildcard names) of expressions of the pool
 	"/a/:w", "/:p/:q", "/b/:k/*rest", "/:z/b",
 	// the other two escapes at the beginning of a segment: a literal '*' and a literal backslash
@@ -323,7 +325,7 @@ type probeReq struct{ m, p string }
 
 func c06Probes() []probeReq {
 	var out []probeReq
-	for _, p := range allPaths(3, []string{"a", "b", "ab", "c", ":x", ""}) {
+	for _, p := range allPaths(3, []string{"a", "b", "ab", "c", ":x", "", "bc"}) {
 		for _, m := range []string{"GET", "POST"} {
 			out = append(out, probeReq{m, p})
 		}
